@@ -219,17 +219,17 @@ func buildUniverse(thorough bool, cfgs []poolCfg) *universe {
 	}
 	// the AddTx alphabet (A's committed nonce is 1 after block 1; B and C are at 0; everybody owns 1000 coins, A ~ 499)
 	u.add("a1", "valid", txkit.Transfer(A, 1, D.Addr, txkit.LKC(10)), true)
-	u.add("a2", "next", txkit.Transfer(A, 2, D.Addr, txkit.LKC(10)), true)
+	u.add("a2", "next", txkit.Transfer(A, 2, D.Addr, txkit.LKC(400)), true) // affordable after a1, not after a1x
 	u.add("a3", "future", txkit.Transfer(A, 3, D.Addr, txkit.LKC(10)), true)
-	a1x := u.add("a1x", "twin", txkit.DuplicateNonce(A, 1, D.Addr, txkit.LKC(10)), true)
+	a1x := u.add("a1x", "twin", txkit.DuplicateNonce(A, 1, D.Addr, txkit.LKC(200)), true)
 	u.add("a0", "stale", txkit.StaleNonce(A, 1, D.Addr, txkit.LKC(10)), true)
 	u.add("b0", "valid", txkit.Transfer(B, 0, D.Addr, txkit.LKC(600)), true)
 	u.add("b1", "underfunded", txkit.Transfer(B, 1, D.Addr, txkit.LKC(600)), true) // b0 + b1 exceed B's 1000 coins
 	u.add("u1", "conf", mk(kit.Transfer(led, txkit.W0, own[:1], 1, []txkit.Dest{txkit.ToWallet(txkit.W1, 0, txkit.LKC(50))}, 0)), true)
 	u2 := u.add("u2", "conf-conflict", mk(kit.Transfer(led, txkit.W0, own[:1], 1, []txkit.Dest{txkit.ToWallet(txkit.W2, 0, txkit.LKC(60))}, 0)), true)
 	u.add("big", "oversized", txkit.Oversized(C, 0, D.Addr), true)
+	u.add("c0", "ain", mk(kit.AccountToUTXO(C, 0, []txkit.Dest{txkit.ToWallet(txkit.W2, 0, txkit.LKC(100))}, nil)), true)
 	if thorough {
-		u.add("c0", "ain", mk(kit.AccountToUTXO(C, 0, []txkit.Dest{txkit.ToWallet(txkit.W2, 0, txkit.LKC(100))}, nil)), true)
 		u.add("c1", "next", txkit.Transfer(C, 1, D.Addr, txkit.LKC(5)), true)
 		u.add("u3", "conf", mk(kit.Transfer(led, txkit.W0, own[1:2], 1, []txkit.Dest{txkit.ToWallet(txkit.W1, 1, txkit.LKC(40))}, 0)), true)
 		u.add("bU", "underfunded", txkit.Underfunded(B, 0, D.Addr, initialBalance), true)
